@@ -462,8 +462,16 @@ func (f *Filter) HashMatchAny(key [KeySize]byte, data [][]byte) (bool, error) {
 
 	b := bstream.NewBStreamReader(filterData)
 
+	// Size the index by what the filter can actually hold: every element
+	// occupies at least one bit of the serialized data, while N is only a
+	// number claimed by whoever serialized the filter.
+	sizeHint := uint64(len(filterData)) * 8
+	if n := uint64(f.N()); n < sizeHint {
+		sizeHint = n
+	}
+
 	var (
-		values    = make(map[uint64]struct{}, f.N())
+		values    = make(map[uint64]struct{}, sizeHint)
 		lastValue uint64
 	)
 
